@@ -6,6 +6,16 @@ Domain : as C01 (vf.pipeline configurations: Colang 1.0 / 2.x, dialog rails on/o
          rewritten; routes alternate predefined and LLM-generated bot messages (v1 `$skip_output_rails`), v1 route act_var = text produced by an LLM-backed action and sent with `bot $answer`; in later turns
          the LLM may repeat verbatim the message text(s) it produced in an earlier turn (turn key `repeat_llm`) - the
          repeated text is checked material of the new turn under the new turn's verdicts.
+         Colang 1.0 conversations may carry per-call generation options (turn key `options`, docs/user_guides/advanced/
+         generation-options.md): calls served with the output rails switched off (`rails: {output: False}` or a rails list
+         without "output") mixed with plain calls and calls whose options leave the output rails on.  Nothing is asserted
+         about the output rails of a call that switched them off (C16 owns that); every other call is checked as ever.
+         Turn key `think`: the LLM's message completions of the turn START with a reasoning block
+         `<think>LM{t}C{k}Z THK{t}C{k}Z ...</think>` followed by the usual completion (the marker is inside AND after the
+         block; `THK..Z` marks the block alone).  Not applied to the Colang 2.x flow-continuation completions (a leading
+         block there is a syntax error of the generated flow - C17's subject).
+         Colang 2.x route `par` (configuration key "ext": "c02-par", dialog True): `vf llm reply and vf llm reply` - two
+         LLM texts obtained and said IN PARALLEL (and-group).  Generated only when PARALLEL_ROUTE is on (see there).
 Oracle : reference model of the output chain (vf.pipeline.model_output) per LLM-generated text, memoryless over
          turns (= the history invariant: the chain of turn t is a function of turn t's verdicts only), checked on
          the rail-action trace and on the returned reply:
@@ -13,14 +23,21 @@ Oracle : reference model of the output chain (vf.pipeline.model_output) per LLM-
              text as left by its predecessors, and is present in its final (rewritten) form only;
            * a rejected text is absent from the reply (also in rewritten form), the rail's refusal / rail
              exception is present;
-           * whatever output-rail invocations happened on an LLM text follow the configured order.
+           * whatever output-rail invocations happened on an LLM text follow the configured order;
+           * a part of the completion (the reasoning block) that shows up in the reply was in the text every rail that
+             judged the un-rewritten completion was given (a part no rail saw is unchecked LLM text).
 Not asserted (DESIGN 4/C02 S): output rails on messages produced by rails themselves or on predefined messages;
          an LLM text that is generated but never uttered (no obligation arises); Colang 2.x rewriting.
 Found by this check on the original tree and fixed in /repo since: C02-F1 (v2 `$output_rails_in_progress` stuck after an
          abort, later turns skipped the output rails), C02-F11 (shipped `self check output` + enable_rails_exceptions
          kept the blocked text).  `known` still recognises exactly these two signatures (it only matters if one of
          them is ever listed as open again).
+Open on the unchanged tree (reported, not listed yet): C02-F23 - Colang 2.x, two bot messages said in parallel: the global
+         `$output_rails_in_progress` set by the first `_bot_say` makes the second one skip `run output rails`, its LLM text
+         is uttered unchecked (repro replays/known/C02/v2-parallel-llm-replies-second-unchecked.json).
 """
+import os
+
 from hypothesis import strategies as st
 
 from vf import fakes, pipeline
@@ -37,19 +54,114 @@ RULE = (
     "x 2-5 turns, each with a route (predefined message / LLM message / predefined+LLM / LLM+predefined / two LLM messages / "
     "LLM-chosen next step / custom action) and a verdict accept|reject|rewrite per (rail, turn); the scripted LLM's message texts "
     "carry unique markers; in a third of the later turns the LLM repeats verbatim the message text(s) of an earlier turn, which "
-    "are then checked material of the new turn. Non-trivial = at least 2 turns and a reject or rewrite by an output rail in a turn strictly before the "
-    "last turn that generated an LLM message, or a repeated LLM text in a conversation with a reject/rewrite; distinct by the whole case."
+    "are then checked material of the new turn. Colang 1.0: a third of the conversations use per-call generation options - each turn "
+    "is a plain call, a call with the output rails switched off ({output: False} alone or with input off, rails lists without 'output') "
+    "or a call whose options leave them on ({}, {output: True}, {input: False}, full rails list, log options); the call that switched "
+    "them off is exempt, every other call is judged as ever. In a quarter of the turns (not for Colang 2.x flow-continuation "
+    "completions) the LLM's message completions START with a reasoning block <think>marker THK-marker words</think> (one or several "
+    "lines) followed by the usual completion, so checked material sits inside and after the block. Colang 2.x route par (two LLM "
+    "replies said in parallel, hand-written rails) only while PARALLEL_ROUTE is on. Non-trivial = at least 2 turns and a reject or rewrite by an output rail in a turn strictly before the "
+    "last turn that generated an LLM message, or a repeated LLM text in a conversation with a reject/rewrite, or a call with the output "
+    "rails switched off before a later call with them on that generated an LLM message; distinct by the whole case."
 )
 ASSUMPTIONS = [
     "rail actions are fakes (register_action); they apply their verdict to texts with an LLM lineage and accept anything else (refusals, predefined messages)",
     "Colang 2.x output rails are generated in the library's check shape only (the guardrails library offers no rewriting convention: `_bot_say` utters its own $text)",
     "an LLM text that never shows up in the reply creates no obligation (e.g. v1 drops the second bot message of a flow once output rails are configured)",
+    "generation options are per call (documented): a call without options, or with options that do not disable the output rails, runs all configured output rails whatever the options of earlier calls of the conversation were; options are generated for Colang 1.0 only (the docs list them as unsupported for 2.x) and always keep the dialog rails on",
+    "a reasoning block the LLM puts in front of its completion is LLM text like the rest: an implementation may drop it, but whatever part of the completion is returned must have been given to the output rails, and nothing of a rejected completion may be returned",
     "a turn that needs more than 100 internal events makes the Colang 1.0 runtime raise `Too many events.`; such cases are counted as skipped",
 ]
 
 
 def budget(tier):
     return 400 if tier == "quick" else 6000
+
+
+# ------------------------------------------------------------------------------------------------
+# per-call generation options (Colang 1.0): spellings that switch the output rails off for the call / leave them on
+
+OPTS_OFF = [
+    {"rails": {"output": False}},
+    {"rails": ["input", "dialog", "retrieval"]},
+    {"rails": ["input", "dialog"]},
+    {"rails": ["dialog"]},
+    {"rails": {"input": False, "output": False}},
+    {"rails": {"output": False}, "log": {"activated_rails": True}},
+]
+OPTS_ON = [
+    {},
+    {"rails": {"output": True}},
+    {"rails": {"input": False}},
+    {"rails": ["input", "dialog", "retrieval", "output"]},
+    {"rails": ["dialog", "output"]},
+    {"log": {"activated_rails": True}},
+]
+
+
+def output_selected(options):
+    """Documented meaning of options.rails for the output category: no options / no `rails` = all rails; a list enables
+    exactly the listed categories; a dict disables what it maps to False (missing = True)."""
+    rails = (options or {}).get("rails")
+    if rails is None:
+        return True
+    if isinstance(rails, list):
+        return "output" in rails
+    return rails.get("output", True) is not False
+
+
+# ------------------------------------------------------------------------------------------------
+# LLM completions that start with a reasoning block
+
+
+def mk_think(t, k):
+    """Marker of the reasoning block alone of the completion with lineage (t, k)."""
+    return f"THK{t}C{k}Z"
+
+
+class _Session(fakes.Session):
+    """Turn key "think" (text): the message completions of the turn start with `<think>...</think>`, then the usual
+    completion follows.  The block carries the marker(s) of the message text AND its own marker(s)."""
+
+    def llm_answer(self, task, prompt, turn, k):
+        ans = super().llm_answer(task, prompt, turn, k)
+        th = self.turns[turn].get("think") if turn < len(self.turns) else None
+        if th and task in ("generate_bot_message", "general"):
+            ln = fakes.lineage(ans)
+            if ln:
+                inner = " ".join(f"{fakes.mk_llm(a, b)} {mk_think(a, b)}" for a, b in ln)
+                return f"<think>{inner} {th}</think>\n{ans}"
+        return ans
+
+
+# ------------------------------------------------------------------------------------------------
+# Colang 2.x: two LLM replies said in parallel (opt-in route "par" through the pipeline's extension registry)
+
+EXT_PAR = "c02-par"
+_PAR_ANCHOR = '  elif $route == "act_llm"\n'
+# The route makes the unchanged tree fail (finding C02-F23, reported): it is generated only after the finding is listed
+# in known_findings.json (open -> tolerated through `known`, fixed -> must hold) or when asked for explicitly.
+PARALLEL_ROUTE = os.environ.get("VF_C02_PARALLEL") == "1"
+
+
+def _par_build_config(cfg, colang, yaml_text):
+    if colang.count(_PAR_ANCHOR) != 1:
+        raise RuntimeError("c02: the generated Colang 2.x dialog flow no longer has the branch the `par` route is inserted before")
+    return colang.replace(_PAR_ANCHOR, '  elif $route == "par"\n    vf llm reply and vf llm reply\n' + _PAR_ANCHOR), yaml_text
+
+
+pipeline.register_extension(EXT_PAR, build_config=_par_build_config)
+
+
+def _parallel_route_on():
+    if PARALLEL_ROUTE:
+        return True
+    try:
+        from vf.core import load_known
+
+        return any(f.get("id") == "C02-F23" for f in load_known())
+    except Exception:
+        return False
 
 
 @st.composite
@@ -68,6 +180,11 @@ def _case(draw):
     if v == 1 and cfg["dialog"]:
         # the flow gets its text from an LLM-backed action and sends it with `bot $answer`: LLM-generated all the same
         routes = tuple(routes) + ("act_var", "act_var")
+    if v == 2 and cfg["dialog"] is True and cfg["style"] == "hand" and _parallel_route_on() and draw(st.booleans()):
+        cfg["ext"] = EXT_PAR
+        routes = tuple(routes) + ("par", "par", "par")
+    with_options = v == 1 and draw(st.sampled_from([False, False, True]))
+    can_think = not (v == 2 and cfg["dialog"] == "llmc")
     turns = []
     for t in range(draw(st.sampled_from([2, 2, 3, 3, 4, 5]))):
         repeat = draw(st.sampled_from([None, None, t - 1, t - 1, draw(st.integers(0, t - 1))])) if t >= 1 else None
@@ -83,6 +200,14 @@ def _case(draw):
         if repeat is not None:
             # the LLM produces, character by character, the message text(s) it produced in turn `repeat` again
             turns[-1]["repeat_llm"] = repeat
+        if with_options:
+            # plain call / output rails off for this call / options that leave them on
+            opt = draw(st.sampled_from([None, None, None] + OPTS_OFF + OPTS_ON[:4] + [draw(st.sampled_from(OPTS_ON))]))
+            if opt is not None:
+                turns[-1]["options"] = opt
+        if can_think and draw(st.sampled_from([False, False, False, True])):
+            words = draw(pipeline.st_body())
+            turns[-1]["think"] = words if draw(st.booleans()) else f"{words}\n{draw(pipeline.st_body())}\n"
     return {"config": cfg, "turns": turns, "api": draw(st.sampled_from(["sync", "async"]))}
 
 
@@ -148,12 +273,68 @@ def enumerate_cases(tier):
                             turns.append({"user": f"{fakes.mk_user(t)} how is the weather", "route": "llm", "in": [], "out": again, "body": "unused", "repeat_llm": 0})
                         yield {"config": cfg, "turns": turns, "api": "sync"}
 
+    # per-call generation options (Colang 1.0): a call with the output rails off, then calls that do not switch them off
+    n = 0
+    for dialog in (False, True):
+        for exc in (False, True):
+            for kinds in (["check"], ["both", "self"]):
+                cfg = {"v": 1, "in": ["check"], "out": kinds, "dialog": dialog, "exc": exc, "ret": 0}
+                A = ["accept"] * len(kinds)
+                events = [A, ["reject"] + A[1:], A[:-1] + ["reject"]] + ([["rewrite"] + A[1:]] if kinds[0] == "both" else [])
+                for ev in events:
+                    for shape in ("off,plain,plain", "plain,off,on,plain", "off,off,plain", "on,off,plain"):
+                        off, on = OPTS_OFF[n % len(OPTS_OFF)], OPTS_ON[n % len(OPTS_ON)]
+                        n += 1
+                        turns = []
+                        first_checked = True
+                        for t, what in enumerate(shape.split(",")):
+                            out = A
+                            if what != "off" and t > 0 and first_checked:
+                                out, first_checked = ev, False  # the event sits in the first checked call after an unchecked one
+                            turn = {"user": f"{fakes.mk_user(t)} how is the weather", "route": "llm", "in": ["accept"], "out": out, "body": "some answer"}
+                            if what != "plain":
+                                turn["options"] = off if what == "off" else on
+                            turns.append(turn)
+                        yield {"config": cfg, "turns": turns, "api": "sync"}
+
+    # reasoning-model completions: `<think>...</think>` in front of the message completion, for every single-turn event
+    for v in (1, 2):
+        for dialog in (False, True):
+            for kinds in (["check"], ["both", "self"]) if v == 1 else (["check", "self"],):
+                for exc in (False, True):
+                    cfg = {"v": v, "in": [], "out": kinds, "dialog": dialog, "exc": exc}
+                    if v == 2:
+                        cfg["style"] = "hand" if dialog else "config"
+                    else:
+                        cfg["ret"] = 0
+                    A = ["accept"] * len(kinds)
+                    events = [A, ["reject"] + A[1:], A[:-1] + ["reject"]] + ([["rewrite"] + A[1:]] if kinds[0] == "both" else [])
+                    for ev in events:
+                        for routes in (("llm", "llm", "llm"),) + ((("pl", "act_var", "llm"),) if v == 1 and dialog and ev is not A else ()):
+                            turns = []
+                            for t, (route, out, think) in enumerate(zip(routes, (A, ev, A), ("I should greet", "step one\nstep two\n", None))):
+                                turns.append({"user": f"{fakes.mk_user(t)} how is the weather", "route": route, "in": [], "out": out, "body": "some answer"})
+                                if think:
+                                    turns[-1]["think"] = think
+                            yield {"config": cfg, "turns": turns, "api": "sync"}
+
+    # Colang 2.x: two LLM replies said in parallel (see PARALLEL_ROUTE)
+    if _parallel_route_on():
+        for exc in (False, True):
+            cfg = {"v": 2, "in": [], "out": ["check"], "dialog": True, "exc": exc, "style": "hand", "ext": EXT_PAR}
+            for seq in (("par", "llm"), ("llm", "par", "ll")):
+                for ev in (["accept"], ["reject"]):
+                    turns = [{"user": f"{fakes.mk_user(t)} how is the weather", "route": r, "in": [], "out": ev if r == "par" else ["accept"], "body": "some answer"} for t, r in enumerate(seq)]
+                    yield {"config": cfg, "turns": turns, "api": "sync"}
+
 
 # ------------------------------------------------------------------------------------------------
 
 
 def _detail(cfg, t, **kw):
     d = {"v": cfg["v"], "exc": bool(cfg["exc"]), "turn": t}
+    if cfg.get("ext"):
+        d["ext"] = cfg["ext"]
     d.update(kw)
     return d
 
@@ -182,6 +363,10 @@ def _check(case, obs):
         labels.append("shipped-self-check-output")
     if cfg.get("passthrough"):
         labels.append("passthrough" + ("+dialog" if cfg["dialog"] else ""))
+    if any(spec.get("options") is not None for spec in case["turns"]):
+        labels.append("conversation-with-generation-options")
+    off_turns = []  # calls served with the output rails switched off (nothing asserted about them)
+    checked_after_off = False
     events_at = []  # turns in which an output rail rejected or rewrote an LLM text
     llm_turns = []  # turns in which the LLM generated a message
     prev_kind = None
@@ -196,9 +381,19 @@ def _check(case, obs):
         excs = pipeline.reply_exceptions(o)
         in_reply = fakes.lineage(text)
         generated = pipeline.generated_texts(o)
-        what = f"v{v} turn {t} (route {spec['route'] if cfg['dialog'] else 'general'}, out verdicts {spec['out']})"
-        if generated:
+        what = f"v{v} turn {t} (route {spec['route'] if cfg['dialog'] else 'general'}, out verdicts {spec['out']}" + (f", options {spec['options']}" if spec.get("options") is not None else "") + ")"
+        off = not output_selected(spec.get("options"))
+        if spec.get("options") is not None:
+            labels.append("options:output-rails-off-call" if off else "options:output-rails-on-call")
+        if spec.get("think") and any(mk_think(*ln) in str(c["answer"]) for c in o["llm"] for ln in generated):
+            labels.append("llm-completion-with-think-block" + ("(multi-line)" if "\n" in spec["think"] else ""))
+        if spec.get("route") == "par" and cfg["dialog"]:
+            labels.append("v2-parallel-llm-replies")
+        if generated and not off:
             llm_turns.append(t)
+            if off_turns:
+                checked_after_off = True
+                labels.append("checked-llm-turn-after-output-off-call" + ("(plain call)" if spec.get("options") is None else "(call with options)"))
         # texts of other turns must not resurface
         for ln in in_reply:
             if ln not in generated:
@@ -208,7 +403,12 @@ def _check(case, obs):
         for e in out_entries:
             for ln in fakes.lineage(e["text"]):
                 by_text.setdefault(ln, []).append(e)
-        for ln in generated:
+        if off:
+            # the caller switched the output rails off for this call: whatever happens to its texts is C16's subject
+            off_turns.append(t)
+            for ln in generated:
+                fate[ln] = (t, "served-with-output-rails-off")
+        for ln in generated if not off else ():
             tt, k = ln
             m = pipeline.model_output(cfg, spec, tt, k)
             entries = by_text.get(ln, [])
@@ -216,12 +416,22 @@ def _check(case, obs):
             present_any = ln in in_reply
             tag = f"{what}, LLM text {fakes.mk_llm(tt, k)}"
             verdicts = [c["verdict"] for c in m["calls"]]
-            sig = {"n_out_calls": len(entries), "earlier_aborts": _aborts_before(case, obs, t), "blocked_kind": cfg["out"][m["blocked"]] if m["blocked"] is not None else None,
+            sig = {"route": spec.get("route"), "n_out_calls": len(entries), "earlier_aborts": _aborts_before(case, obs, t), "blocked_kind": cfg["out"][m["blocked"]] if m["blocked"] is not None else None,
                    "exception_in_reply": any(e.get("type") == "OutputRailException" for e in excs), "present_raw": present_raw}
             # (a) whatever ran, ran in the configured order on the right texts
             prob = pipeline.chain_problem(m["calls"], entries, tag, prefix_ok=True)
             if prob:
                 raise Violation("output-rail-chain", prob, _detail(cfg, t, **sig))
+            # (a') a part of the completion that reaches the caller was part of what the rails judging the completion were given
+            part = mk_think(tt, k)
+            if part in text:
+                for c, e in zip(m["calls"], entries):
+                    if c["sees"] == m["orig"] and part not in str(e["text"]):
+                        raise Violation(
+                            "unchecked-llm-text-in-reply",
+                            f"{tag}: the reply carries the reasoning block of the completion ({part}) but rail {c['rail']} was given a text without it: {str(e['text'])[:100]!r}; reply {text[:160]!r}",
+                            _detail(cfg, t, **sig),
+                        )
             if present_any:
                 # (b) a text that reaches the caller has passed the complete chain ...
                 if len(entries) < m["need"]:
@@ -260,6 +470,8 @@ def _check(case, obs):
                     labels.append("rewrite-then-later-rail")
             if not entries and not present_any:
                 labels.append("llm-text-generated-not-uttered")
+            if spec.get("think"):
+                labels.append("think:" + ("rejected" if m["blocked"] is not None else ("rewritten" if m["final"] != m["orig"] else "passed")) + ("" if present_any or m["blocked"] is not None else "(not uttered)"))
             now = "rejected" if m["blocked"] is not None else ("rewritten" if m["final"] != m["orig"] else "passed")
             if tt != t:
                 repeated = True
@@ -273,7 +485,7 @@ def _check(case, obs):
         prev_kind = kind_now
         if len(generated) > 1:
             labels.append("two-llm-messages-in-turn")
-    nt = bool(events_at and llm_turns and min(events_at) < max(llm_turns)) or (repeated and bool(events_at))
+    nt = bool(events_at and llm_turns and min(events_at) < max(llm_turns)) or (repeated and bool(events_at)) or checked_after_off
     if nt:
         labels.append("event-before-later-llm-turn")
         if any(e >= 1 for e in events_at):
@@ -282,7 +494,7 @@ def _check(case, obs):
 
 
 def prop(case):
-    return pipeline.run_checked(case, _check)
+    return pipeline.run_checked(case, _check, session_cls=_Session)
 
 
 def known(case, violation):
@@ -290,6 +502,13 @@ def known(case, violation):
     d = violation.detail or {}
     if d.get("v") != 2:
         return None
+    # F23: two bot messages said in parallel - the second `_bot_say` finds $output_rails_in_progress set and skips the rails
+    # (same root - global state shared by the parallel `_bot_say` instances: a rail runs while the global $bot_message holds the other text)
+    # With several rails the symptoms vary (one text misses the whole chain, or only the rails that ran while the flag was set, a rail
+    # judges the other message's text): every output-rail violation *in a turn that says two LLM texts in parallel* is this finding;
+    # turns of other routes in the same conversation are judged as always.
+    if d.get("ext") == EXT_PAR and d.get("route") == "par" and violation.kind in ("unchecked-llm-text-in-reply", "output-rail-chain", "blocked-text-in-reply", "rewrite-not-returned"):
+        return "C02-F23"
     # F1: after an output rail aborted in an earlier turn, the output rails are skipped altogether
     if violation.kind == "unchecked-llm-text-in-reply" and d.get("n_out_calls") == 0 and d.get("earlier_aborts"):
         return "C02-F1"
